@@ -28,5 +28,48 @@ func simRun(t *testing.T, tape *sim.Tape, cfg sim.Config, setup func(r *sim.Runt
 		setup(r)
 		res = r.Loop()
 	})
+	if res != nil {
+		simAgg.add(res)
+	}
 	return
+}
+
+// simAgg accumulates, per shard process, what the simulated runs reached: distinct pick sequences (the measure of
+// distinct interleavings), contention and concurrency reach. RunShard merges it into the shard summary.
+type simAggT struct {
+	scheds map[uint64]struct{}
+	stats  map[string]int64
+}
+
+var simAgg = &simAggT{scheds: map[uint64]struct{}{}, stats: map[string]int64{}}
+
+func (a *simAggT) add(res *sim.Result) {
+	a.stats["sim_runs"]++
+	if res.Decisions > 0 {
+		a.stats["sim_runs_with_a_scheduling_choice"]++
+		if len(a.scheds) < 2000000 {
+			a.scheds[res.SchedHash^uint64(res.Decisions)<<40] = struct{}{}
+		}
+	}
+	a.stats["sim_decisions"] += int64(res.Decisions)
+	a.stats["sim_switches"] += int64(res.Switches)
+	a.stats["sim_preemptions_fired"] += int64(res.Preempts)
+	if res.LockWaits > 0 {
+		a.stats["probe_lock_contention_runs"]++
+	}
+	switch {
+	case res.MaxRunnable >= 4:
+		a.stats["probe_runs_with_4_or_more_runnable_tasks"]++
+	case res.MaxRunnable >= 2:
+		a.stats["probe_runs_with_2_or_3_runnable_tasks"]++
+	}
+}
+
+func (a *simAggT) mergeInto(stats map[string]int64) {
+	for k, v := range a.stats {
+		stats[k] += v
+	}
+	if len(a.scheds) > 0 {
+		stats["distinct_schedules"] += int64(len(a.scheds))
+	}
 }
